@@ -15,7 +15,7 @@ TRUSTED_BASE = [
     "Spec/Nondet.v: valid_order / all_orders as a reading of RFC 9535 2.5.2.2 (parent before child, array elements in order, object members free)",
     "Model/NdVisit.v hand-written from _nondeterministic_visit / _nondeterministic_children; tied to the code script by script",
     "Model/NdEval.v hand-written from WildcardSelector.resolve / FilterSelector.resolve / the segments' resolve in nondeterministic mode: every random episode takes its own script from a supply; queries nested in filters are evaluated deterministically (only their truth value, count or single value is used); tied to the code outcome by outcome, the harness regrouping the recorded choices per episode (attribution through the callers' frames: self / node / root; when the frames do not have that shape only the outcome sets are compared)",
-    "Spec/NondetQ.v: nd_permitted (relation, what the theorems are about) and nd_results (enumeration, what the check compares outcome sets with); their agreement is not proved, the enumeration is built from all_orders and all permutations",
+    "Spec/NondetQ.v: nd_permitted (relation, what the theorems are about) and nd_results (enumeration, what the check compares outcome sets with); C17_enumeration_exact: the enumeration lists exactly the nodelists the relation holds of",
     "tools/vlib/chooser.py replaces the random module's functions inside the harness process (no hook in the library)",
     "extraction (ExtrOcamlBasic only) and the OCaml integer driver",
 ]
